@@ -246,6 +246,44 @@ def _ovl2_task(i):
 
 
 
+OVL3_TYPES = ["Int32", "Float32", "Float322"]
+OVL3_ARGS = [("Int32", 0, "Lvalue"), ("Int32", 0, "Rvalue"), ("Int32", 1, "Lvalue"), ("Float32", 0, "Lvalue"), ("Float32", 0, "Rvalue"), ("Float322", 0, "Lvalue"), ("IntLiteral", 0, "Rvalue")]
+
+
+def _ovl3_task(i):
+    """overloads that differ in parameter direction: every pair {f(d1 P), f(d2 Q)} with P = OVL3_TYPES[i], d1, d2 in
+    in / out / inout (the two signatures distinct), both declaration orders, every argument"""
+    import itertools
+    import elabmodel as EM
+    if "el" not in _W:
+        _W["el"] = EM.Elab(_W["facts"])
+    el = _W["el"]
+    types = [t for t in OVL3_TYPES if t in el.u.names]
+    if i >= len(types):
+        return (i, True, 0, 0, None, None)
+    order_bad = None
+    nsets = ncalls = 0
+    dirs = ("In", "Out", "InOut")
+    args = [el.ety(*a) for a in OVL3_ARGS if a[0] in el.u.names]
+    for q in types[i:]:
+        for d1, d2 in itertools.product(dirs, repeat=2):
+            if q == types[i] and d1 >= d2:
+                continue
+            nsets += 1
+            ovl = [(0, [(types[i], 0, d1)]), (1, [(q, 0, d2)])]
+            for a in args:
+                ncalls += 2
+                r1 = el.run_overloads(ovl, [a])
+                r2 = el.run_overloads(ovl[::-1], [a])
+                if r1[0] == "unreadable" or r2[0] == "unreadable":
+                    return (i, False, nsets, ncalls, r1[1] if r1[0] == "unreadable" else r2[1], None)
+                if r1 != r2 and order_bad is None:
+                    sig = ["f(%s %s)" % (d.lower(), t) for d, t in ((d1, types[i]), (d2, q))]
+                    name = lambda v: sig[v[1]] if v[0] == "Ok" else ("ambiguous" if v[1] is True else "no match" if v[1] is False else str(v))
+                    order_bad = "%s, %s called with %s: resolves to %s, with the declarations swapped to %s" % (sig[0], sig[1], el.describe(a), name(r1), name(r2))
+    return (i, True, nsets, ncalls, order_bad, None)
+
+
 def rule_resolution_types(chk):
     """Overload resolution end to end (write_function -> find_function_type -> find_overload_casts ->
     ImplicitConversion::find / get_rank, none scripted) on the model type registry: every set of two or three
@@ -264,12 +302,13 @@ def rule_resolution_types(chk):
     items2 = list(range(len(OVL2_TYPES) ** 2))
     n = min(16, int(os.environ.get("VERIF_JOBS", "0") or 0) or (os.cpu_count() or 2))
     if n <= 1:
-        res = [_ovl_task(x) for x in items] + [_ovl2_task(x) for x in items2]
+        res = [_ovl_task(x) for x in items] + [_ovl2_task(x) for x in items2] + [_ovl3_task(x) for x in range(len(OVL3_TYPES))]
     else:
         with mp.get_context("fork").Pool(n) as pool:
             r1 = pool.map_async(_ovl_task, items, chunksize=1)
             r2 = pool.map_async(_ovl2_task, items2, chunksize=1)
-            res = r1.get() + r2.get()
+            r3 = pool.map_async(_ovl3_task, list(range(len(OVL3_TYPES))), chunksize=1)
+            res = r1.get() + r2.get() + r3.get()
     if not all(r[1] for r in res):
         return chk.unreadable("C16.types/readable", "write_function on the type model", [r[4] for r in res if not r[1]][:1], where(wf))
     sets, calls = sum(r[2] for r in res), sum(r[3] for r in res)
